@@ -255,7 +255,7 @@ func init() {
 				if w.WantSample(cls) {
 					w.Sample(cls, map[string]string{"case": human(), "T": parent.String(), "T+B": child.String()})
 				}
-			}}}
+			}}, c02ModesSpace(c)}
 		},
 	})
 }
